@@ -39,14 +39,14 @@ class O:
     """One proof obligation: a harness function of a harness TU, with its bounds."""
     def __init__(self, name, tu, fn, unwind=2, unwindset=None, backend='sat', defs=(), cdefs=(), replace=None,
                  nsw=False, tiers='qt', timeout=None, flags=(), bound='', desc='', no_checks=False,
-                 usingz=False, known=None, object_bits=12, replay_sanitize=False, depth=None, olevel='O0', crosscheck=False, lift=()):
+                 usingz=False, known=None, object_bits=12, replay_sanitize=False, depth=None, olevel='O0', crosscheck=False, lift=(), expect_from=None, kind='cbmc', allow_globals=()):
         self.name = name; self.tu = tu; self.fn = fn; self.unwind = unwind; self.unwindset = unwindset or []
         self.backend = backend if isinstance(backend, (list, tuple)) else [backend]
         self.defs = tuple(defs) + (('USINGZ',) if usingz else ()); self.cdefs = tuple(cdefs)
         self.replace = dict(replace or {}); self.nsw = nsw; self.tiers = tiers
         self.timeout = timeout; self.flags = list(flags); self.bound = bound; self.desc = desc
         self.no_checks = no_checks; self.known = known; self.object_bits = object_bits
-        self.replay_sanitize = replay_sanitize; self.depth = depth; self.olevel = olevel; self.crosscheck = crosscheck; self.lift = tuple(lift)
+        self.replay_sanitize = replay_sanitize; self.depth = depth; self.olevel = olevel; self.crosscheck = crosscheck; self.lift = tuple(lift); self.expect_from = expect_from; self.kind = kind; self.allow_globals = tuple(allow_globals)
     def variant(self):
         h = hashlib.sha1(repr((self.defs, sorted(self.replace.items()), self.nsw, self.olevel, self.lift)).encode()).hexdigest()[:8]
         return '%s-%s' % (os.path.splitext(self.tu)[0], h)
@@ -122,8 +122,23 @@ def substitute(ll_text, replace):
         return line
     return '\n'.join(fix_line(l) for l in ll_text.split('\n')), {dm.get(k, k): v for k, v in mapping.items()}
 
+def resolve_expectations(o):
+    """expect_from=(tu, defs, fn): run fn of another (native, real-code) build and pass what it prints as -DEXPECT_<k>=<value>."""
+    if not o.expect_from or getattr(o, '_expect_done', False): return
+    tu, defs, fn = o.expect_from
+    other = O('expect-' + fn, tu, fn, defs=defs)
+    info = build_variant(other)
+    exe = build_replay(info)
+    r = subprocess.run([exe, fn], stdout=subprocess.PIPE, text=True, timeout=120)
+    vals = [l.split()[1] for l in r.stdout.split('\n') if l.startswith('o ')]
+    if r.returncode != 0 or not vals: raise BuildError('expectation run %s failed: %s' % (fn, r.stdout[-300:]))
+    o.defs = tuple(o.defs) + tuple('EXPECT_%d=%sLL' % (k, v) for k, v in enumerate(vals))
+    o.expectations = dict(source='%s:%s (native run of the real code)' % (tu, fn), values=vals)
+    o._expect_done = True
+
 def build_variant(o):
     """front end for (tu, defs, replace, nsw). Returns dict with paths and stats."""
+    resolve_expectations(o)
     v = o.variant()
     with _build_lock:
         lk = _build_locks.setdefault(v, threading.Lock())
@@ -318,8 +333,55 @@ def extract_traces(text):
         out[pid] = seq
     return out
 
+def run_irscan(o, tier, outdir):
+    """C14 support: syntactic scan of the LLVM IR of the real code: every writable (non-constant) global, and every function
+    that stores to it / passes its address on. A store by anything but a static initialiser is shared mutable state."""
+    info = build_variant(o)
+    text = open(info['ll']).read()      # un-optimised IR: nothing has been removed yet
+    globs = {}
+    for m in re.finditer(r'^@("(?:[^"\\]|\\.)*"|[-a-zA-Z$._0-9]+) = (?:[a-z_]+ )*global ', text, re.M):
+        g = m.group(1).strip('"')
+        line = text[m.start():text.index('\n', m.start())]
+        if ' constant ' in line or g.startswith('llvm.') or ' external ' in line: continue
+        globs[g] = dict(stores=[], address_uses=[], loads=[])
+    dm = demangle_map(list(globs))
+    cur = None
+    for line in text.split('\n'):
+        mm = re.match(r'^define [^@]*@("(?:[^"\\]|\\.)*"|[-a-zA-Z$._0-9]+)\(', line)
+        if mm: cur = mm.group(1).strip('"'); continue
+        if line == '}': cur = None; continue
+        if cur is None or '@' not in line: continue
+        for g in globs:
+            if ('@' + g) not in line and ('@"' + g + '"') not in line: continue
+            if not re.search(r'@"?' + re.escape(g) + r'"?(?![-a-zA-Z$._0-9])', line): continue
+            s_ = line.strip()
+            if s_.startswith('store ') and re.search(r',\s*[^,]*\*\s+(getelementptr[^@]*)?@"?' + re.escape(g), s_): globs[g]['stores'].append(cur)
+            elif re.match(r'%\S+ = load ', s_): globs[g]['loads'].append(cur)
+            else: globs[g]['address_uses'].append(cur)
+    def is_init(fn): return fn.startswith('__cxx_global_var_init') or fn.startswith('_GLOBAL__sub_I_') or fn.startswith('__cxx_global_array_dtor')
+    bad = []; report = []
+    for g, u in sorted(globs.items()):
+        harness_own = g.startswith('_ZL') and not g.startswith('_ZN') and 'Clipper2Lib' not in dm.get(g, g) and not g.startswith('_ZStL')
+        wr = sorted(set(f for f in u['stores'] + u['address_uses'] if not is_init(f)))
+        entry = dict(symbol=dm.get(g, g), written_or_escaping_in=wr, read_in=sorted(set(u['loads']))[:6], allowed=(dm.get(g, g) in o.allow_globals or g in o.allow_globals))
+        report.append(entry)
+        if wr and not entry['allowed'] and not harness_own: bad.append(entry)
+    rec = dict(name=o.name, harness=o.fn, tu=o.tu, defs=list(o.defs), bound=o.bound, desc=o.desc, unwind=0, replaced={}, lifted=[], runs=[],
+               witness=dict(backend='irscan', seconds=0, verdict='n/a', reached=len(globs) > 0), witness_replay=None,
+               verdict='SUCCESS' if not bad else 'FAILURE', nprops=len(globs), solver_s=0, seconds=0.0, backend='irscan', symex_steps=0, vccs=len(globs),
+               scan=report)
+    if bad:
+        os.makedirs(REPLAYDIR, exist_ok=True)
+        path = os.path.join(REPLAYDIR, '%s-%s.globals.json' % (o.name.split('.')[0], re.sub(r'\W', '_', o.name)))
+        json.dump(bad, open(path, 'w'), indent=1)
+        rec['scan_violation'] = dict(replay=path, desc='writable global written outside static initialisation: ' + ', '.join(b['symbol'] + ' in ' + '/'.join(demangle_map(b['written_or_escaping_in']).values()) for b in bad)[:400])
+    rec['_info'] = info
+    return rec
+
 def run_obligation(o, tier, outdir):
     """runs property + witness queries; returns result record"""
+    if o.kind == 'irscan':
+        return run_irscan(o, tier, outdir)
     info = build_variant(o)
     timeout = o.timeout or (90 if tier == 'quick' else 900)
     rec = dict(name=o.name, harness=o.fn, tu=o.tu, defs=list(o.defs), bound=o.bound, desc=o.desc, unwind=o.unwind,
@@ -511,7 +573,7 @@ def harness_differential(obls, infos_by_variant, seed, outdir, per_harness=4):
     results = []; done = set()
     for o in obls:
         key = (o.variant(), o.fn)
-        if key in done: continue
+        if key in done or o.kind != 'cbmc': continue
         done.add(key)
         info = infos_by_variant.get(o.variant())
         if info is None: continue
@@ -624,7 +686,9 @@ def main():
     violations = []; knowns = []; ub_notes = []
     for rec in recs:
         o = rec.pop('_o')
-        if rec['verdict'] == 'FAILURE':
+        if rec['verdict'] == 'FAILURE' and o.kind == 'irscan':
+            violations.append(dict(desc=rec['scan_violation']['desc'], replay=rec['scan_violation']['replay'], obligation=o.name))
+        elif rec['verdict'] == 'FAILURE':
             oc = classify_failures(pid, o, rec, known)
             violations += oc['violations']; knowns += oc['known']; ub_notes += oc['ub_notes']
             errors += ['%s: %s' % (o.name, e) for e in oc['errors']]
@@ -658,7 +722,7 @@ def write_evidence(pid, tier, seed, mod, recs, violations, knowns, ub_notes, err
     samples = [dict(obligation=r['name'], harness=r['harness'], tu=r['tu'], bound=r['bound'], what=r['desc'], unwind=r['unwind'],
                     verdict=r['verdict'], backend=r.get('backend'), solver_s=r.get('solver_s'), wall_s=r.get('seconds'),
                     properties_checked=r.get('nprops'), witness_reached=r['witness']['reached'], witness_replayed_natively=r.get('witness_replay'), runs=r['runs'],
-                    abstractions=r['replaced'], lifted_exact_double=r.get('lifted', []), why=r.get('why')) for r in recs]
+                    abstractions=r['replaced'], lifted_exact_double=r.get('lifted', []), why=r.get('why'), global_scan=r.get('scan')) for r in recs]
     ev = dict(property_id=pid, tier=tier, seed=seed, level='model_checking',
               coverage=dict(
                   evaluations=max(len(recs), 0), distinct_nontrivial=len(conclusive),
